@@ -21,6 +21,8 @@ import (
 	"strings"
 	"sync"
 	"time"
+
+	"verif.local/simrt"
 )
 
 type tierParams struct {
@@ -32,15 +34,15 @@ type tierParams struct {
 func params(prop, tier string) tierParams {
 	switch prop + "/" + tier {
 	case "C16/quick":
-		return tierParams{Cases: 24000, Budget: 150 * time.Second, K: 4}
+		return tierParams{Cases: 64000, Budget: 150 * time.Second, K: 4}
 	case "C16/thorough":
 		return tierParams{Budget: 15 * time.Minute, K: 12}
 	case "C14/quick":
-		return tierParams{Cases: 2400, Budget: 150 * time.Second, K: 3}
+		return tierParams{Cases: 6400, Budget: 150 * time.Second, K: 3}
 	case "C14/thorough":
 		return tierParams{Budget: 10 * time.Minute, K: 8}
 	case "C19/quick":
-		return tierParams{Cases: 6400, Budget: 150 * time.Second, K: 3}
+		return tierParams{Cases: 12800, Budget: 150 * time.Second, K: 3}
 	case "C19/thorough":
 		return tierParams{Budget: 15 * time.Minute, K: 6}
 	}
@@ -52,6 +54,7 @@ func main() {
 		fmt.Fprintln(os.Stderr, "usage: harness run|worker|replay ...")
 		os.Exit(2)
 	}
+	simrt.SnapshotGlobals()
 	switch os.Args[1] {
 	case "run":
 		os.Exit(driver(os.Args[2:]))
@@ -155,6 +158,9 @@ func workerMain(args []string) int {
 		default:
 			fmt.Fprintln(os.Stderr, "unknown property", f.prop)
 			return 2
+		}
+		if w.stop {
+			break
 		}
 	}
 	mu.Lock()
@@ -345,6 +351,10 @@ func driver(args []string) int {
 	}
 	for _, e := range tot.Errors {
 		fmt.Println("note:", e)
+	}
+	if tot.Extra["stalled_workers"] > 0 && exit == 0 {
+		fmt.Println("ERROR: a run stalled and no violation was confirmed: no verdict")
+		exit = 2
 	}
 	wall := time.Since(t0).Seconds()
 	if f.evidence != "" {
